@@ -282,6 +282,25 @@ func closureTables(repo string, cfg *ast.FuncDecl, fsetRun *token.FileSet, run *
 		}
 	}
 
+	// run.go call (declared functions): the callee's result slots are cells of its own, copied to the destination when the
+	// call returns (1b5ab85; before, `nf.data[i] = v(f)` aliased them to the caller's destination cells: F01). Tied only —
+	// both Lean levels with calls (Model/Cfg.lean doReturn, Model/CfgSlots.lean doReturn2) deliver the result at the return.
+	if cl := common.FindFunc(run, "", "call"); cl == nil {
+		fact("call copies the results when the callee returns", "unrecognised: func call not found")
+	} else {
+		fresh := hasStmt(cl, "nf.data[i] = reflect.New(def.types[i]).Elem()")
+		alias := hasStmt(cl, "nf.data[i] = v(f)")
+		copies := hasStmt(cl, "v(f).Set(nf.data[i])")
+		switch {
+		case fresh && copies && !alias:
+			fact("call copies the results when the callee returns", "true")
+		case alias:
+			fact("call copies the results when the callee returns", "false")
+		default:
+			fact("call copies the results when the callee returns", "unrecognised: result slots of the call frame")
+		}
+	}
+
 	// cfg.go: slots of the loop variable, and loopVarForEnd on the body block
 	var forIf *ast.IfStmt
 	if cfg == nil {
